@@ -84,8 +84,10 @@ CHECKS = {
              "(smallest covering count, largest count not exceeding, reject table) and, as trace judge, recomputes the tokenizer "
              "parameters from the logged durations and evaluates C02/C03/C04 on the windows of real split() runs on probe recordings "
              "(isolated bursts of 1..MinLen+1 windows, over-long burst, gaps of MaxSil and MaxSil+1) incl. decimal quotients that are "
-             "not representable in binary floating point; ValueError vs success decided for the whole grid.",
-        ref="DESIGN.md 5/C06", technique="TLA+ model checking (TLC) of the integer formulas + trace validation of real split() runs", note=SPLIT_NOTE),
+             "not representable in binary floating point; ValueError vs success decided for the whole grid. The two characterisations (smallest covering "
+             "count, largest count not exceeding, whole quotients exact) are also proved for ALL positive durations and windows, integer and rational, "
+             "by Apalache on DurationsInt (symbolic integers, with a refuted false formula as vacuity control).",
+        ref="DESIGN.md 5/C06", technique="TLA+ model checking (TLC) of the integer formulas + unbounded symbolic check (Apalache) + trace validation of real split() runs", note=SPLIT_NOTE),
     "C09": dict(
         text="Container kinds (bytes, AudioRegion + method, AudioSource, AudioReader with equal block duration, raw/wav files eager/lazy, "
              "by extension / audio_format / fmt, Path, stdin) x alias spellings (long / short / both with a conflicting short value, "
@@ -144,7 +146,8 @@ CHECKS = {
              "present x palette values and exports the prescription; each vector is executed with auditok.cmdline.main (wav / raw / stdin, "
              "short and long option names, %S / %I / %h:%m:%s.%i, three printf templates) and TLC (CliTrace) compares exit status, line "
              "count, ids, every printed time with the exact instant of the API detection obtained with the prescribed kwargs, field ranges "
-             "and recomposition, and the projected -O / -o / -j files; unknown directives must raise.",
+             "and recomposition, and the projected -O / -o / -j files; unknown directives must raise. Existence and uniqueness of the field tuple are "
+             "proved for ALL whole-millisecond values by Apalache on CliInt.",
         ref="DESIGN.md 5/C15", technique="TLA+ enumeration of option vectors (TLC) + one command-line execution per vector judged by TLC against the API",
         note="Trusted: TLC/SANY, CPython, argparse; main() runs in worker processes with its 1 s poll shortened. Printed whole-millisecond values must "
              "equal int(v*1000) of the float v the API reports and lie within one millisecond below the exact instant (O2); %S within half a "
@@ -156,7 +159,9 @@ CHECKS = {
              "samples); TLC checks them equal for every (length, bytes-per-sample, start, stop) of the bound and enumerates the seconds view "
              "on an eighth-of-a-sample grid (truncated start, rounded stop; bounded nondeterminism only within 1/20 sample of a switch "
              "point); one implementation test per case; seeded call sequences on real regions (sample / seconds / millis views, len, "
-             "duration, TypeError cases, millis view compared with the seconds view at t/1000) judged by TLC on RegionTrace.",
+             "duration, TypeError cases, millis view compared with the seconds view at t/1000) judged by TLC on RegionTrace. Thorough tier: the "
+             "agreement of the byte-offset computation with Python slicing is proved for ALL lengths, sample sizes and bounds (None included) by "
+             "Apalache on RegionInt (about two minutes of Z3).",
         ref="DESIGN.md 5/C16", technique="TLA+ case enumeration (TLC) + one implementation test per case + trace validation", note=REGION_NOTE),
     "C17": dict(
         text="Region.tla: the division loop vs 'min(n,len) pieces differing by at most one whose concatenation is the original' checked by TLC "
